@@ -22,8 +22,9 @@ def sig_f12_queue_race(v, case):
     """C20: a queue() call overlapping a consuming execute_once at line granularity left the
     external queue unsorted / an event overtaken (Interpreter queues are not thread-safe)."""
     d = v.get('detail', {})
-    return (v.get('kind') in ('queue-order', 'event-overtaken', 'event-lost', 'event-duplicated')
-            and d.get('granularity') == 'line'
+    return (v.get('kind') in ('queue-order', 'due-event-not-consumed', 'event-lost',
+                              'event-duplicated', 'unknown-event-consumed')
+            and d.get('granularity') == 'line+queue'
             and bool(d.get('queue_overlapped_execute')))
 
 
